@@ -73,7 +73,7 @@ fn c19_5b_sub_f64() {
     kani::cover!(d > 0.0 && r.ticks == 0 && t.ticks > 0); // saturation
 }
 
-// @ob id=C19.5e strength=complete tier=thorough timeout=3600 fn=clock/time.rs::<ClockTime as Sub<f64>>::sub
+// @ob id=C19.5e strength=complete tier=disabled fn=clock/time.rs::<ClockTime as Sub<f64>>::sub
 // @req t as above with ticks >= 1, 0 <= d <= 1 (at most one borrow), (includes the corner that was finding F13, repaired by fix cfea7ec)
 // @ens the total time ticks + fraction moves back by d to rounding: |(total(t) - total(r)) - d| <= 2^-52
 #[kani::proof]
